@@ -58,4 +58,34 @@ def runSeq (flag : Bool) (doReset : Bool) : SymTab → List (List Char) → List
     let r := assemble flag (if doReset then SymTab.reset tbl else tbl) src
     r.1 :: runSeq flag doReset r.2 rest
 
+/-- What one re-check of `lace watch` reports (or that the watcher is gone). -/
+inductive WatchVerdict where
+  | ok | diag | panic
+  /-- the file could not be read as text (`fs::read_to_string` failed): the watcher prints the
+  error and exits -/
+  | exited
+  /-- no re-check: the watcher has exited before this version was saved -/
+  | none
+  deriving DecidableEq, Repr
+
+def WatchVerdict.ofOutcome : Outcome → WatchVerdict
+  | .ok _ => .ok
+  | .diag _ _ => .diag
+  | .panic _ => .panic
+
+/-- The `watch` arm of main.rs over the successive versions of the watched file (`none` = a version
+that is not valid UTF-8): read, assemble, `reset_state()`, again — until a version cannot be read,
+which ends the process. -/
+def watchSession (flag : Bool) : SymTab → List (Option (List Char)) → List WatchVerdict
+  | _, [] => []
+  | _, none :: rest => .exited :: rest.map fun _ => .none
+  | tbl, some src :: rest =>
+    let r := assemble flag tbl src
+    .ofOutcome r.1 :: watchSession flag (SymTab.reset r.2) rest
+
+/-- What a fresh `lace check` says about a version. -/
+def checkVerdict (flag : Bool) : Option (List Char) → WatchVerdict
+  | none => .diag
+  | some src => .ofOutcome (assemble flag [] src).1
+
 end Lace.Asm
